@@ -18,7 +18,7 @@ SPEC_FORMS = ('old', 'forall', 'exists', 'implies', 'ite', 'pow2', 'typeis', 'is
               'str_indexof', 'str_at', 'str_suffixof', 'Eq', 'wsonly', 'lstripped', 'val_eq',
               'U', 'app', 'splice', 'Bst', 'appb', 'Bin', 'appbin', 'is_binstr', 'binval',
               'prefix_same', 'outside_same', 'chars_eq', 'allspaces', 'allchar', 'is_bool', 'oval',
-              'isdigits', 'str2int', 'same_dict', 'dval')
+              'isdigits', 'str2int', 'same_dict', 'dval', 'gh', 'ghat', 'same_ghosts', 'npow2', 'asref')
 
 
 def eval_call(eng, e, st, ctx):
@@ -131,6 +131,14 @@ def apply(eng, ctx, st, fv, args, kwargs):
                         yield r
                     return
         raise Unsupported('call of symbolic class')
+    if isinstance(fv.ty, Ref):
+        hook = eng.class_hook(fv.ty.cls, 'call')
+        if hook is None:
+            raise Unsupported('call of an object of class %s' % fv.ty.cls)
+        eng.safe(ctx, st, fv.z != 0, 'TypeError', 'call of None')
+        for r in hook(eng, ctx, st, fv, args, kwargs):
+            yield r
+        return
     if fv.ty != ANYFUNC:
         raise Unsupported('call of non-function %r' % (fv.ty,))
     d = fv.z
@@ -190,7 +198,25 @@ def apply(eng, ctx, st, fv, args, kwargs):
         for r in d[1](eng, ctx, st, args, kwargs):
             yield r
         return
+    if kind == 'builtin':
+        raise Unsupported('indirect call of builtin %s' % d[1])
     if kind == 'classattr':
+        # Class.method(...): static methods and plain functions looked up on the class
+        cid = z3.simplify(d[1].z)
+        if z3.is_int_value(cid):
+            cname = [n for n, k in eng.class_ids.items() if k == cid.as_long()]
+            if cname:
+                dcls, fi = eng.find_method(cname[0], d[2])
+                if fi is not None:
+                    q = fi.qualname
+                    c = eng.reg.get(q)
+                    if c is not None and not c.inline:
+                        for r in eng.use_contract(ctx, st, c, args, kwargs, fi):
+                            yield r
+                    else:
+                        for r in eng.call_function(ctx, st, fi, args, kwargs, recv_cls=dcls, static=True):
+                            yield r
+                    return
         raise Unsupported('class attribute call %s' % d[2])
     raise Unsupported('apply %s' % kind)
 
@@ -253,13 +279,19 @@ def spec_form(eng, e, st, ctx):
         bz = eng.truth(tmp, body)
         extra = tmp.pc[n0:]
         rng = z3.And(lo.z <= c, c < hi.z)
+        if extra:
+            # facts met while evaluating the body (heap well-formedness, definitions of fresh symbols) are assumptions of
+            # the model for every position of the range; they are not part of the quantified statement
+            wf = z3.Implies(rng, z3.And(extra))
+            wp = index_patterns(wf, c)
+            st.assume(z3.ForAll([c], wf, patterns=wp) if wp else z3.ForAll([c], wf))
         if name == 'forall':
-            inner = z3.Implies(z3.And([rng] + extra), bz) if extra else z3.Implies(rng, bz)
+            inner = z3.Implies(rng, bz)
             pats = index_patterns(inner, c)
             if pats:
                 return SV(BOOL, z3.ForAll([c], inner, patterns=pats))
             return SV(BOOL, z3.ForAll([c], inner))
-        return SV(BOOL, z3.Exists([c], z3.And([rng, bz] + extra)))
+        return SV(BOOL, z3.Exists([c], z3.And([rng, bz])))
     if name == 'implies':
         p = eng.truth(st, ev1(a[0]))
         tmp = st.fork()
@@ -267,7 +299,9 @@ def spec_form(eng, e, st, ctx):
         n0 = len(tmp.pc)
         q = eng.truth(tmp, eng.spec_eval(a[1], tmp, ctx))
         extra = tmp.pc[n0:]
-        return SV(BOOL, z3.Implies(p, z3.And([q] + extra) if extra else q))
+        if extra:
+            st.assume(z3.Implies(p, z3.And(extra)))      # well-formedness facts are assumptions, not part of the claim
+        return SV(BOOL, z3.Implies(p, q))
     if name == 'ite':
         c = eng.truth(st, ev1(a[0]))
         x, y = ev1(a[1]), ev1(a[2])
@@ -395,6 +429,44 @@ def spec_form(eng, e, st, ctx):
         o = ctx.old_state
         return SV(BOOL, z3.And(z3.Select(st.hget(E.lkey(el)), x.z) == z3.Select(o.hget(E.lkey(el)), x.z),
                                z3.Select(st.hget(E.ekey(el)), x.z) == z3.Select(o.hget(E.ekey(el)), x.z)))
+    if name in ('gh', 'ghat'):
+        # ghost fields declared in the class table (`ghosts`): gh(obj, 'name') / ghat(obj, 'name', k) for array-valued ghosts
+        x = ev1(a[0])
+        gname = a[1].value
+        srt = None
+        for c in eng.mro(x.ty.cls):
+            srt = eng.classes.get(c, {}).get('ghosts', {}).get(gname, srt)
+        if srt is None:
+            raise Unsupported('ghost %s of %s' % (gname, x.ty.cls))
+        z = z3.Select(st.hget(eng.ghost_key(gname, srt)), x.z)
+        for c in eng.mro(x.ty.cls):
+            ff = eng.classes.get(c, {}).get('ghost_facts', {})
+            if gname in ff:
+                st.assume(ff[gname](z))
+        if name == 'ghat':
+            z = z3.Select(z, ev1(a[2]).z)
+            rs = srt.range()
+        else:
+            rs = srt
+        ty = {z3.IntSort(): INT, z3.BoolSort(): BOOL, z3.StringSort(): STR}.get(rs)
+        if ty is None:
+            ty = FLOAT if rs == Fl else None
+        if ty is None:
+            raise Unsupported('ghost sort %s' % rs)
+        return SV(ty, z)
+    if name == 'asref':
+        # asref(int expression, 'Class'): view an object identity kept in an integer ghost as a reference of that class
+        return SV(Ref(a[1].value), ev1(a[0]).z)
+    if name == 'same_ghosts':
+        x = ev1(a[0])
+        conj = []
+        for c in eng.mro(x.ty.cls):
+            for gname, srt in eng.classes.get(c, {}).get('ghosts', {}).items():
+                k = eng.ghost_key(gname, srt)
+                conj.append(z3.Select(st.hget(k), x.z) == z3.Select(ctx.old_state.hget(k), x.z))
+        return SV(BOOL, z3.And(conj) if conj else B(True))
+    if name == 'npow2':
+        return SV(INT, -E.pow2_term(ev1(a[0]).z))
     if name == 'same_dict':
         x = ev1(a[0])
         if ctx.old_state is None:
@@ -418,7 +490,9 @@ def spec_form(eng, e, st, ctx):
         return BIT_FORMS[name](eng, st, [ev1(x) for x in a])
     if name == 'select':
         lst, i = ev1(a[0]), ev1(a[1])
-        return SV(lst.ty.elem, z3.Select(eng.list_arr(st, lst), i.z))
+        z = z3.Select(eng.list_arr(st, lst), i.z)
+        eng.ref_fact(st, lst.ty.elem, z)
+        return SV(lst.ty.elem, z)
     raise Unsupported('spec form %s' % name)
 
 
@@ -994,6 +1068,63 @@ def b_slice(eng, e, st, ctx):
         yield st2, hook(eng, ctx, st2, parts)
 
 
+def cursor_name(elem):
+    return 'Cursor$' + sort_key(elem) + ('$' + repr(elem) if isinstance(elem, TupleT) else '')
+
+
+def cursor_class_entry(elem):
+    return dict(bases=[], fields={'lst': ListT(elem), 'pos': INT}, hooks={'call': cursor_call},
+                field_facts={'pos': lambda z: z >= 0}, nonnull=['lst'])
+
+
+def cursor_class(eng, elem):
+    name = cursor_name(elem)
+    if name not in eng.classes:
+        eng.classes[name] = cursor_class_entry(elem)
+    return name
+
+
+def cursor_next(eng, ctx, st, cur):
+    """next(iter(L)) (L9): the element at the cursor, which advances; StopIteration at the end"""
+    lst = eng.read_field(ctx, st, cur, 'lst')
+    pos = eng.read_field(ctx, st, cur, 'pos')
+    n = eng.list_len(st, lst)
+    eng.safe(ctx, st, pos.z < n, 'StopIteration', 'next() on an exhausted iterator')
+    z = z3.Select(eng.list_arr(st, lst), pos.z)
+    eng.ref_fact(st, lst.ty.elem, z)
+    eng.elem_fact(st, lst.ty.elem, z)
+    eng.write_field(ctx, st, cur, 'pos', SV(INT, pos.z + 1))
+    return SV(lst.ty.elem, z)
+
+
+def cursor_call(eng, ctx, st, cur, args, kwargs):
+    yield st, cursor_next(eng, ctx, st, cur)
+
+
+def b_iter(eng, e, st, ctx):
+    for st2, args, _ in _args(eng, e, st, ctx):
+        x = eng.iter_source(ctx, st2, args[0])
+        if not isinstance(x.ty, ListT):
+            raise Unsupported('iter(%r)' % (x.ty,))
+        eng.safe(ctx, st2, x.z != 0, 'TypeError', 'iter(None)')
+        cname = cursor_class(eng, x.ty.elem)
+        r = eng.new_ref(st2)
+        st2.hset(('type',), z3.Store(st2.hget(('type',)), r, I(eng.class_id(cname))))
+        cur = SV(Ref(cname), r)
+        eng.write_field(ctx, st2, cur, 'lst', x)
+        eng.write_field(ctx, st2, cur, 'pos', SV(INT, I(0)))
+        yield st2, cur
+
+
+def b_next(eng, e, st, ctx):
+    for st2, args, _ in _args(eng, e, st, ctx):
+        cur = args[0]
+        if isinstance(cur.ty, Ref) and cur.ty.cls.startswith('Cursor$'):
+            yield st2, cursor_next(eng, ctx, st2, cur)
+        else:
+            raise Unsupported('next(%r)' % (cur.ty,))
+
+
 def b_noop(eng, e, st, ctx):
     for st2, args, _ in _args(eng, e, st, ctx):
         yield st2, eng.lit(None)
@@ -1003,7 +1134,7 @@ BUILTINS = {
     'len': b_len, 'int': b_int, 'round': b_round, 'abs': b_abs, 'min': b_minmax('min'), 'max': b_minmax('max'),
     'isinstance': b_isinstance, 'type': b_type, 'issubclass': b_issubclass, 'getattr': b_getattr,
     'hasattr': b_hasattr, 'setattr': b_setattr, 'str': b_str, 'bin': b_bin, 'sum': b_sum, 'list': b_list,
-    'tuple': b_tuple, 'bool': b_bool, 'slice': b_slice, 'print': b_noop,
+    'tuple': b_tuple, 'bool': b_bool, 'slice': b_slice, 'print': b_noop, 'iter': b_iter, 'next': b_next,
 }
 
 
@@ -1042,6 +1173,10 @@ def mf_partial(eng, e, st, ctx):
             if r is not None:
                 yield st2, r
                 continue
+        if len(args) == 2 and args[0].ty == ANYFUNC and args[0].z == ('builtin', 'next') and isinstance(args[1].ty, Ref) \
+                and args[1].ty.cls.startswith('Cursor$'):
+            yield st2, args[1]
+            continue
         yield st2, SV(ANYFUNC, ('partial', args[0], args[1:]))
 
 
